@@ -38,7 +38,10 @@ RULE = ("tie-rich elections (2..8 projects named p00..p07, 60 % with >= 6; all-e
         "per election with voter_budget_increment, the increment scaled like money), greedy and "
         "the PRIMAL_DUAL welfare maximiser under 2 exactly-computed measures each and lexicographic + another shipped "
         "tie-breaking rule} x presentations {as given (run twice); 2 voter permutations; 2 project insertion orders; "
-        "costs and budget scaled by 1/3, 7, 10/7, 1000; one combination of all three (run twice)} x one interpreter per "
+        "costs and budget scaled by 1/3, 7, 10/7, 1000; one combination of all three (run twice)}, outcomes snapshotted "
+        "right after each call; per election one extra call of every rule taking an initial_budget_allocation with a "
+        "feasible non-empty one (list / tuple / BudgetAllocation in turn, the same BudgetAllocation object reused "
+        "across repetitions and history) x one interpreter per "
         "PYTHONHASHSEED (quick 3, thorough 8); plus 2 (thorough 4) PROCESS-HISTORY presentations per election: the "
         "election evaluated after 1-2 other elections on the same Instance object / the same profile with another "
         "Instance / the same Project objects with other costs, through the same calls and tie-breaking singletons; "
@@ -89,7 +92,7 @@ SATS_BY_BTYPE["cumulative"] = SATS_BY_BTYPE["cardinal"]
 
 
 def budget(tier):
-    return 700 if tier == "quick" else 6000
+    return 560 if tier == "quick" else 5000
 
 
 # ------------------------------------------------------------------------------------------------
@@ -145,7 +148,7 @@ def _gen_election(rng, i):
             "multi": rng.random() < 0.3}
 
 
-def _gen_calls(rng, btype):
+def _gen_calls(rng, btype, init=None):
     calls = []
     tbs = TBS_APPROVAL if btype == "approval" else TBS_OTHER
     if btype == "approval":
@@ -163,6 +166,18 @@ def _gen_calls(rng, btype):
                 if rule == "greedy":
                     c["additive"] = None if (s == "CC_Sat" or rng.random() < 0.7) else False
                 calls.append(c)
+    # every rule that takes one: a feasible non-empty INITIAL BUDGET ALLOCATION (passed as list / tuple /
+    # BudgetAllocation object by the helper, the object being reused across repetitions and process history)
+    if init:
+        if btype == "approval":
+            calls.append({"rule": "phragmen", "tb": rng.choice(tbs), "init": init})
+        for rule in ("mes", "greedy", "maxw"):
+            c = {"rule": rule, "sat": rng.choice(table[rule][:2]), "init": init}
+            if rule != "maxw":
+                c["tb"] = rng.choice(tbs)
+            if rule == "greedy":
+                c["additive"] = None if rng.random() < 0.7 else False
+            calls.append(c)
     # Equal Shares with the budget-increase loop (voter_budget_increment), one configuration per election
     calls.append({"rule": "mes_iter", "sat": rng.choice(table["mes"][:2]), "tb": rng.choice(tbs),
                   "inc": rng.choice(["1/1", "1/2", "1/3", "2/1"])})
@@ -279,6 +294,23 @@ def _gen_near_tie(rng, i):
     return e
 
 
+def _gen_init(rng, e):
+    """a feasible, non-empty initial allocation that leaves room for more (None when there is none)"""
+    cs = [pb.F(c) for c in e["costs"]]
+    B = pb.F(e["budget"])
+    for _ in range(6):
+        perm = list(range(len(cs)))
+        rng.shuffle(perm)
+        sel, tot = [], Fraction(0)
+        for p in perm[: rng.choice([1, 1, 2, 3])]:
+            if tot + cs[p] <= B:
+                sel.append(p)
+                tot += cs[p]
+        if sel and any(tot + cs[p] <= B for p in range(len(cs)) if p not in sel):
+            return sorted(sel)
+    return None
+
+
 def gen(rng, i, tier):
     if i % 6 == 4:
         c = _gen_near_tie(rng, i)
@@ -294,7 +326,7 @@ def gen(rng, i, tier):
         return c
     e = _gen_election(rng, i)
     c = dict(e)
-    c["calls"] = _gen_calls(rng, e["btype"])
+    c["calls"] = _gen_calls(rng, e["btype"], _gen_init(rng, e))
     c["pres"] = _gen_pres(rng, len(e["costs"]), len(e["ballots"]), tier) + _gen_history(rng, e, tier)
     c["tier"] = tier
     return c
@@ -378,7 +410,7 @@ def coq_case(case, o):
     for ci, call in enumerate(case["calls"]):
         rows = [lst([_pair(ab) for ab in s["runs"][ci]]) for s in o["per_seed"]]
         phr = "None"
-        if call["rule"] == "phragmen" and _model_ok(case):
+        if call["rule"] == "phragmen" and "init" not in call and _model_ok(case):
             phr = "(Some %s)" % core.nat(TBID[call["tb"]])
         calls.append("(mkCall %s %s %s)" % (boolc(call.get("cross", True)), phr, lst(rows)))
     ballots = []
@@ -420,7 +452,7 @@ def nontrivial(case, o):
         return None
     if any(_base(o, ci)["set"] for ci, c in enumerate(case["calls"]) if c["rule"] != "maxw"):
         return [case["costs"], case["budget"], case["btype"], case["ballots"], case["multi"],
-                [[c["rule"], c.get("sat"), c.get("tb")] for c in case["calls"]]]
+                [[c["rule"], c.get("sat"), c.get("tb"), c.get("init")] for c in case["calls"]]]
     return None
 
 
@@ -470,6 +502,8 @@ def stats(cases, obs):
         d["duplicated_ballots"] += len(set(bs)) < len(bs)
         for call in c["calls"]:
             d["calls_by_rule"][call["rule"]] = d["calls_by_rule"].get(call["rule"], 0) + 1
+            if "init" in call:
+                d["calls_with_initial_allocation"] = d.get("calls_with_initial_allocation", 0) + 1
             if "tb" in call:
                 d["calls_by_tb"][call["tb"]] = d["calls_by_tb"].get(call["tb"], 0) + 1
             if "sat" in call:
@@ -558,6 +592,7 @@ def shrink(case):
             pres.append(p2)
         c["pres"] = pres
         c["ballots"] = renb(case["ballots"])
+        c["calls"] = [dict(x, init=ren(x["init"])) if "init" in x else x for x in case["calls"]]
         yield c
     if case.get("multi"):
         c = dict(case)
